@@ -44,7 +44,7 @@ var dagRootPayload []byte
 
 func newDagFix(t *testing.T) *dagFix {
 	dagSeq++
-	dir := filepath.Join(os.TempDir(), fmt.Sprintf("c19dag%d", dagSeq))
+	dir := filepath.Join(os.TempDir(), fmt.Sprintf("c19dag-%d-%d", os.Getpid(), dagSeq))
 	_ = os.MkdirAll(dir, 0o755)
 	db, err := bbolt.CreateBBoltStore(filepath.Join(dir, "dag.db"), stoabs.WithNoSync())
 	if err != nil {
